@@ -24,6 +24,8 @@ type pconnIn struct {
 	Reply   []int  `json:"reply"`
 	Rchunks []int  `json:"rchunks"`
 	Rcap    int    `json:"rcap"`
+	Alen    int    `json:"alen"` // application's ReadFrom buffer: length and capacity (0: 70000)
+	Acap    int    `json:"acap"`
 	Tag     string `json:"tag"`
 }
 
@@ -54,15 +56,26 @@ func runPconn(t *testing.T, c pconnIn) (in caseOut, out *caseOut, leak string) {
 		var mu sync.Mutex
 		var gots []delivered
 		go func() { // the application reading from the packet connection
-			buf := make([]byte, 70000)
+			alen, acap := c.Alen, c.Acap
+			if acap == 0 {
+				alen, acap = 70000, 70000
+			}
+			buf := make([]byte, alen, acap)
 			for {
+				for i := range buf[:acap] {
+					buf[:acap][i] = 0xff // no packet byte has this value: bytes ReadFrom did not write stay visible
+				}
 				n, a, err := pc.ReadFrom(buf)
 				d := delivered{err: err}
 				if a != nil {
 					d.addr = a.String()
 				}
 				if err == nil {
-					d.data = append([]byte{}, buf[:n]...)
+					// what a caller sees in b[:n] (n is promised to be at most len(b); up to cap(b) can be looked at)
+					d.data = append([]byte{}, buf[:min(max(n, 0), acap)]...)
+					if n > acap {
+						d.data = nil
+					}
 				}
 				mu.Lock()
 				gots = append(gots, d)
@@ -90,11 +103,13 @@ func runPconn(t *testing.T, c pconnIn) (in caseOut, out *caseOut, leak string) {
 		first := bindingRequest("u1:peer")
 		payloads := [][]byte{first}
 		stream := frame(first)
-		in = caseOut{ID: c.ID, Kind: "pconn", Tag: c.Tag, Pk: []int{len(first)}, Caps: []int{512}, Cap: ice.VerifReceiveMTU, Trunc: c.Trunc,
+		in = caseOut{ID: c.ID, Kind: "pconn", Tag: c.Tag, Pk: []int{len(first)}, Caps: []int{512}, Cap: ice.VerifReceiveMTU, Trunc: c.Trunc, Abuf: abufClass(c),
 			Raw: []int{}, Wr: []wrRec{{OK: true, Ret: len(first), Hdr: len(first), Blen: len(first), Same: true, Wrote: len(first) + 2}}}
+		in.Adrop = []bool{c.Acap != 0 && len(first) > c.Alen}
 		for i, n := range c.Pk {
 			pl := payload(i+1, n)
 			payloads = append(payloads, pl)
+			in.Adrop = append(in.Adrop, c.Acap != 0 && n > c.Alen)
 			in.Pk = append(in.Pk, n)
 			in.Caps = append(in.Caps, ice.VerifReceiveMTU)
 			in.Wr = append(in.Wr, wrRec{OK: true, Ret: n, Hdr: n, Blen: n, Same: true, Wrote: n + 2, S: len(stream)})
@@ -226,6 +241,20 @@ func runPconn(t *testing.T, c pconnIn) (in caseOut, out *caseOut, leak string) {
 	})
 
 	return in, out, leak
+}
+
+// abufClass names the shape of the application's read buffer relative to the packets of the case.
+func abufClass(c pconnIn) string {
+	if c.Acap == 0 {
+		return "ample"
+	}
+	for _, n := range c.Pk {
+		if n > c.Alen && n <= c.Acap {
+			return "len<packet<=cap"
+		}
+	}
+
+	return "other"
 }
 
 func toString(r any) string {
